@@ -45,6 +45,13 @@ func loadKnownFindings(path string) []knownFinding {
 	return out
 }
 
+func obFull(ob *Obligation) string {
+	if ob.Func == "lemma" {
+		return ob.Name
+	}
+	return ob.Func + "::" + ob.Name
+}
+
 func hasProp(props []string, p string) bool {
 	for _, x := range props {
 		if x == p {
@@ -124,6 +131,8 @@ func checkMain(args []string) {
 	}
 	genS := time.Since(t0).Seconds() - loadS
 
+	unclaimedEarly := loadUnclaimed(filepath.Join(*verif, "UNCLAIMED_OBLIGATIONS.txt"))
+	var skippedQuick []string
 	type sel struct {
 		r  *FnResult
 		ob *Obligation
@@ -165,6 +174,10 @@ func checkMain(args []string) {
 			bounded[b] = true
 		}
 		for _, ob := range obs {
+			if *tier == "quick" && unclaimedEarly[obFull(ob)] {
+				skippedQuick = append(skippedQuick, obFull(ob)+" (not attempted in the quick tier; attempted with long timeouts in the thorough tier)")
+				continue
+			}
 			j := &job{ob: ob, path: obFile(outDir, r.Name+"__"+ob.Name)}
 			jobs = append(jobs, j)
 			sels = append(sels, sel{r, ob})
@@ -301,7 +314,7 @@ func checkMain(args []string) {
 			"samples":                samples,
 			"per_obligation":         recs,
 			"locked_obligations":     len(lock),
-			"generated_but_not_claimed": notClaimed,
+			"generated_but_not_claimed": append(notClaimed, skippedQuick...),
 		},
 	}
 	b, _ := json.MarshalIndent(ev, "", " ")
